@@ -653,6 +653,19 @@ impl Interp {
                     self.run_line(&format!("open {}", hex(&c)));
                 }
             }
+            "bigfile" => {
+                // a large file built directly (no per-insert lines): n entries, default block size
+                let n: u32 = toks[1].parse().unwrap_or(1000);
+                let cfg = WCfg::parse(&toks[2..]);
+                let es: Vec<Entry> = (0..n).map(|i| ((i * 3).to_be_bytes().to_vec(), vec![(i % 251) as u8; (i % 5) as usize])).collect();
+                let bytes = Self::build_file(&es, &cfg);
+                if let Ok(d) = decode::decode(&bytes) {
+                    for (k, v) in crate::oracles::file_stats(&d) {
+                        *self.stats.entry(k).or_insert(0) += v;
+                    }
+                }
+                self.set_file(bytes, es, "bigfile");
+            }
             "interop" => self.interop(line),
             "srcopt" => {
                 for a in &toks[1..] {
